@@ -34,4 +34,5 @@ def run(ctx):
     rules.launch_sites(ctx, which=("potential",))
     spaces.dense_potential_evaluator(ctx)
     spaces.coefficient_maps(ctx)
+    spaces.localised_inherit(ctx)
     rules.factory_sites(ctx, "potential", only_files=("laplace.py",))
